@@ -39,6 +39,7 @@ func c13(c *q.Ctx) {
 		c.Then(mn, q.ToCall("Miner.truncateForMiner"), q.ToCall("Ledger.GetMeta"), q.ToCall("Miner.packBlock"), nil, "after a truncation the trunk height is read again before the block is packed")
 	}
 	utxoCacheEviction(c)
+	keyLockProtocol(c)
 	if pk := c.Fn(miner + "(*Miner).packBlock"); pk != nil {
 		c.ArgIs(pk, "Miner.getAwardTx", 1, "p2", 1, "award computed for the height that is packed")
 		c.ArgIs(pk, "Ledger.FormatMinerBlock", 12, "p2", 1, "the block is formatted at that height")
